@@ -15,7 +15,7 @@ RULE = ("Hypothesis draws an operation (cat of 2-3 operands along every axis wit
         "torch.cat / F.pad / block assembly / diag embedding-extraction / mode product / reshape / conj on the dense "
         "contraction. Non-trivial: some rank>1 and (cat) operands with different ranks, (pad) a mode with padded and "
         "unpadded indices. Distinct = structural signature.")
-BUDGET = {"quick": 12000, "thorough": 240000}
+BUDGET = {"quick": 12000, "thorough": 600000}
 FLOORS = {"quick": {"op:cat": 500, "op:pad": 500, "op:pad_ttm": 400, "op:diag_embed": 200, "op:diag_extract": 200,
                     "op:mprod": 400, "pad:value!=0": 300, "pad:subset_of_modes": 200, "mprod:list": 100}}
 ASSUMPTIONS = ["pad widths are non-negative; operator pad with some trailing modes unpadded treats them as width (0,0) "
